@@ -91,7 +91,7 @@ def gen_layout(rng, base, idx, regression=False, cyclic=True, nolinks=False):
     """A directory tree under base: sandbox root base/sb, outside area base/out; links inside sb."""
     B = os.path.join(base, "L%d" % idx)
     sb, out = B + "/sb", B + "/out"
-    ents = [(sb, "d", ""), (out, "d", ""), (out + "/od", "d", ""), (out + "/secret", "f", ""), (out + "/od/deep", "f", ""),
+    ents = [(sb, "d", ""), (B + "/systmp", "d", ""), (out, "d", ""), (out + "/od", "d", ""), (out + "/secret", "f", ""), (out + "/od/deep", "f", ""),
             (sb + "/a", "d", ""), (sb + "/a/b", "d", ""), (sb + "/f", "f", ""), (sb + "/a/g", "f", "")]
     links = [("li", "a"), ("lo", out), ("lrel", "../out"), ("a/lup", "../.."), ("lf", out + "/secret"), ("dang", out + "/newfile"),
              ("dangin", "a/newin"), ("dangdir", out + "/nodir/x"), ("loop1", "loop2"), ("loop2", "loop1"), ("lchain", "li"),
@@ -207,6 +207,8 @@ def snapshot(top, skip):
         dns[:] = [d for d in dns if os.path.join(dp, d) != skip]
         for n in dns + fns:
             p = os.path.join(dp, n)
+            if os.path.basename(dp) == "systmp" and (n.startswith("ego-") or n.startswith("go-build")):
+                continue        # the binary's own files in the temp directory (ego-system.db...)
             st = os.lstat(p)
             if os.path.islink(p):
                 res[p] = ("l", os.readlink(p))
@@ -235,6 +237,9 @@ def run_ego_layout(ck, ego, lay, tag):
     leak_name = "leakname%s" % secret[6:]
     open(os.path.join(lay["out"], "od", leak_name), "w").write('"%s"' % secret)
     env = vf.ego_env(os.path.join(ck.work, "egohome" + tag))
+    # the system temp directory is outside the sandbox too (os.CreateTemp("", ...) falls back to it): keep it inside the
+    # snapshotted area so that a file appearing there is seen
+    env["TMPDIR"] = os.path.join(B, "systmp")
     rc, o = vf.sh([ego, "config", "set", "ego.runtime.sandbox.path=" + lay["root"]], cwd=lay["real_root"], env=env, timeout=60)
     if rc != 0:
         ck.violation("ego-config", "cannot set the sandbox path: " + o[-500:], replay={"log": o[-2000:]}, found_input=False)
